@@ -147,6 +147,58 @@ fn groups(rng: &mut Rng, arch: &Arch, n: u64, feats: &mut BTreeSet<String>) -> V
     out
 }
 
+/// The interaction shape behind this check: a base register is defined completely, then one of its sub-registers
+/// is written, then a view of the same base register (the same one, a neighbour, an enclosing one) is read and made
+/// observable.  After lifting these are PIECE / SUBPIECE expressions over the base register that expression
+/// propagation nests into each other and trivial-expression substitution simplifies.
+fn piece_chain(rng: &mut Rng, arch: &Arch, feats: &mut BTreeSet<String>) -> Vec<Vec<Op>> {
+    let bases: Vec<&pblockgen::RegDef> = arch
+        .base_regs()
+        .into_iter()
+        .filter(|r| r.name != arch.sp && r.name != arch.pc && arch.views.iter().any(|v| v.base == r.name && v.size < v.base_size))
+        .collect();
+    let b = *rng.pick(&bases);
+    let subs: Vec<&pblockgen::View> = arch.views.iter().filter(|v| v.base == b.name && v.size < v.base_size).collect();
+    let s1 = *rng.pick(&subs);
+    let s2 = if rng.chance(1, 2) { s1 } else { *rng.pick(&subs) };
+    // an operand of the given size that is no view of b (and no flag): a view of another register, or a constant
+    let operand = |rng: &mut Rng, size: u64| -> Value {
+        let c: Vec<&pblockgen::View> = arch.views.iter().filter(|v| v.size == size && v.base != b.name && !arch.flags.contains(&v.base.as_str())).collect();
+        if c.is_empty() || rng.chance(1, 5) {
+            cst(rng.next(), size)
+        } else {
+            let v = *rng.pick(&c);
+            reg(&v.name, size)
+        }
+    };
+    let full = reg(&b.name, b.size);
+    let g1 = if rng.chance(1, 2) {
+        vec![copy(full.clone(), operand(rng, b.size))]
+    } else {
+        vec![bin(full.clone(), *rng.pick(&["INT_ADD", "INT_XOR", "INT_SUB"]), operand(rng, b.size), cst(rng.below(300), b.size))]
+    };
+    let w = reg(&s1.name, s1.size);
+    let g2 = match rng.below(3) {
+        0 => vec![copy(w, operand(rng, s1.size))],
+        1 => vec![bin(w, *rng.pick(&["INT_ADD", "INT_AND", "INT_OR"]), operand(rng, s1.size), cst(rng.below(256), s1.size))],
+        _ => vec![bin(w.clone(), "INT_ADD", w, cst(1 + rng.below(9), s1.size))],
+    };
+    let r = reg(&s2.name, s2.size);
+    let g3 = match rng.below(3) {
+        0 => vec![copy(pcodegen::ram(pblockgen::RAM_BASE + 8 * rng.below(4), s2.size), r)],
+        1 => {
+            let d = operand(rng, s2.size);
+            if d["name"].is_string() { vec![copy(d, r)] } else { vec![copy(pcodegen::ram(pblockgen::RAM_BASE, s2.size), r)] }
+        }
+        _ => vec![bin(pcodegen::ram(pblockgen::RAM_BASE + 16, s2.size), "INT_XOR", r, cst(rng.below(256), s2.size))],
+    };
+    feats.insert("piece_chain".into());
+    if s2.lsb == s1.lsb && s2.size == s1.size {
+        feats.insert("piece_chain_same_view".into());
+    }
+    vec![g1, g2, g3]
+}
+
 /// Mode A: a project of pcodegen.rs; one of its functions is enriched with pblockgen instruction groups.
 fn mode_a(rng: &mut Rng, arch: &Arch) -> Built {
     let knobs = Knobs { n_funcs: 3, max_blocks: 2 + rng.below(4) as usize, must_call: vec![], lkm: false, lost_roots: false };
@@ -168,6 +220,31 @@ fn mode_a(rng: &mut Rng, arch: &Arch) -> Built {
         pos.sort();
         for (k, (p, g)) in pos.into_iter().zip(gs.into_iter()).enumerate() {
             b.instrs.insert(p + k, g);
+        }
+    }
+    // piece chains: the three groups in one block, or the reader at the start of the next block of the layout
+    let nb = spec.funcs[fidx].blocks.len();
+    for bi in 0..nb {
+        if !rng.chance(1, 3) {
+            continue;
+        }
+        let mut ch = piece_chain(rng, arch, &mut feats);
+        let split = bi + 1 < nb && rng.chance(1, 3);
+        let reader = if split { ch.pop() } else { None };
+        {
+            let b = &mut spec.funcs[fidx].blocks[bi];
+            let is_call = matches!(b.term, Term::CallExt { .. } | Term::CallFn { .. } | Term::CallInd { .. });
+            let limit = if is_call && !b.instrs.is_empty() { b.instrs.len() - 1 } else { b.instrs.len() };
+            // behind the prologue of the entry block
+            let lo = if bi == 0 { limit.min(4) } else { 0 };
+            let p = lo + rng.below((limit - lo) as u64 + 1) as usize;
+            for (k, g) in ch.into_iter().enumerate() {
+                b.instrs.insert(p + k, g);
+            }
+        }
+        if let Some(g) = reader {
+            feats.insert("piece_chain_across_blocks".into());
+            spec.funcs[fidx].blocks[bi + 1].instrs.insert(0, g);
         }
     }
     for b in spec.funcs[fidx].blocks.iter() {
@@ -225,6 +302,11 @@ fn mode_b(rng: &mut Rng, arch: &Arch) -> Built {
         for mut ins in pb.instrs {
             sanitize(&mut ins, rng, arch, &mut bt);
             instrs.push(ins);
+        }
+        if rng.chance(1, 3) {
+            let mut ch = piece_chain(rng, arch, &mut feats);
+            ch.extend(instrs);
+            instrs = ch;
         }
         let other = |rng: &mut Rng| if n > 1 { 1 + rng.below(n as u64 - 1) as usize } else { 0 };
         let next = if i + 1 < n { i + 1 } else { other(rng) };
